@@ -315,6 +315,18 @@ def load_c(hfile: Path, workdir: Path, model, core: bool, cc="gcc"):
     res = dict(ok=p.returncode == 0, err=p.stderr[-600:] if p.returncode else "", warn="", probe=None)
     if p.returncode == 0 and p.stderr.strip():
         res["warn"] = p.stderr[-600:]
+    # the macros as the C preprocessor sees them (gcc -E -dM: name and replacement text of every object-like macro)
+    try:
+        pm = subprocess.run([cc, "-std=gnu11", "-E", "-dM", "-I", str(hfile.parent), str(tu)], capture_output=True, text=True, timeout=T_LOAD)
+        if pm.returncode == 0:
+            mac = {}
+            for ln in pm.stdout.splitlines():
+                t = ln.split(None, 2)
+                if len(t) >= 2 and t[0] == "#define" and "(" not in t[1] and not t[1].startswith("__"):
+                    mac[t[1]] = t[2].strip() if len(t) == 3 else ""
+            res["macros"] = mac
+    except subprocess.TimeoutExpired:
+        pass
     if not res["ok"]:
         return res
     lines = [pre, f'#include "{hfile.name}"', "int main(void){"]
